@@ -198,6 +198,14 @@ class Table(Vector):
 			initial = [Vector(values, name=col_name) for col_name, values in initial.items()]
 		
 		self._length = len(initial[0]) if initial else 0
+
+		# A table is rectangular: refuse columns of different lengths
+		for i, vec in enumerate(initial or ()):
+			if len(vec) != self._length:
+				raise SerifValueError(
+					f"Cannot build a Table from columns of different lengths: "
+					f"column 0 has length {self._length}, column {i} has length {len(vec)}"
+				)
 		
 		# Deep copy columns to enforce value semantics
 		# Tables receive snapshots of vectors, preventing aliasing
